@@ -227,7 +227,46 @@ func treeCase(r *sim.R, k int) {
 		if pol != nil {
 			mopts = append(append([]ucfg.Option{}, opts...), pol)
 		}
-		r.Tracef("dst := NewFrom(%s); dst.Merge(%s)", describe(in), describe(src))
+		// 0..2 per-field policies named after node paths of the operands
+		var fdesc []string
+		if t.Chance(1, 2, "with-field-options") {
+			var cands [][]string
+			for _, tr := range []*model.Node{a, b} {
+				tr.Walk(func(x *model.Node, segs []model.Seg) {
+					if len(segs) == 0 || len(segs) > 3 || x.K != model.KSub {
+						return
+					}
+					p := make([]string, len(segs))
+					for i, sg := range segs {
+						p[i] = sg.String()
+					}
+					cands = append(cands, p)
+				})
+			}
+			sort.Slice(cands, func(i, j int) bool { return strings.Join(cands[i], ".") < strings.Join(cands[j], ".") })
+			used := map[string]bool{}
+			for i := 0; i < 1+t.Choose(2, "n-field-options") && len(cands) > 0; i++ {
+				p := cands[t.Choose(len(cands), "field-option-path")]
+				key := strings.Join(p, ".")
+				if used[key] || (r.Avoid["O12"] && world.SpuriousMatch(p, a, b)) {
+					continue
+				}
+				used[key] = true
+				switch t.Choose(3, "field-option-policy") {
+				case 0:
+					mopts = append(append([]ucfg.Option{}, mopts...), ucfg.FieldReplaceValues(key))
+					fdesc = append(fdesc, key+"=replace")
+				case 1:
+					mopts = append(append([]ucfg.Option{}, mopts...), ucfg.FieldAppendValues(key))
+					fdesc = append(fdesc, key+"=append")
+				default:
+					mopts = append(append([]ucfg.Option{}, mopts...), ucfg.FieldPrependValues(key))
+					fdesc = append(fdesc, key+"=prepend")
+				}
+				r.Probe("order: merge with a per-field policy")
+			}
+		}
+		r.Tracef("dst := NewFrom(%s); dst.Merge(%s) field options %v", describe(in), describe(src), fdesc)
 		if detail["overlap"] == "true" {
 			return
 		}
